@@ -254,6 +254,10 @@ class TD3(RLAlgorithm):
             self.critic_2 = create_critic()
             self.critic_target_2 = create_critic()
 
+        self.actor_target.load_state_dict(self.actor.state_dict())
+        self.critic_target_1.load_state_dict(self.critic_1.state_dict())
+        self.critic_target_2.load_state_dict(self.critic_2.state_dict())
+
         # Share encoders between actor and critic
         self.share_encoders = share_encoders
         if self.share_encoders and all(
@@ -264,10 +268,6 @@ class TD3(RLAlgorithm):
 
             # Need to register a mutation hook that does this after every mutation
             self.register_mutation_hook(self.share_encoder_parameters)
-
-        self.actor_target.load_state_dict(self.actor.state_dict())
-        self.critic_target_1.load_state_dict(self.critic_1.state_dict())
-        self.critic_target_2.load_state_dict(self.critic_2.state_dict())
 
         # Optimizers
         self.actor_optimizer = OptimizerWrapper(
@@ -305,12 +305,11 @@ class TD3(RLAlgorithm):
             isinstance(net, EvolvableNetwork)
             for net in [self.actor, self.critic_1, self.critic_2]
         ):
+            # The target critics follow the encoder of the *target* actor, so that they
+            # are soft-updated like every other target weight
+            share_encoder_parameters(self.actor, self.critic_1, self.critic_2)
             share_encoder_parameters(
-                self.actor,
-                self.critic_1,
-                self.critic_2,
-                self.critic_target_1,
-                self.critic_target_2,
+                self.actor_target, self.critic_target_1, self.critic_target_2
             )
         else:
             warnings.warn(
